@@ -659,6 +659,21 @@ func (p *Prog) safetyCall(pr *Prover, b *ssa.BasicBlock, ins ssa.Instruction, cc
 		}
 		ob("nilarg", ins, ok, how, a)
 	}
+	// K1 at the call sites of result-less buffer helpers
+	for _, cal := range callees {
+		if !isBufHelper(cal) {
+			continue
+		}
+		if ii := bufHelperIndex(cal) + 1; ii < len(args) {
+			l := pr.lin(args[ii])
+			okp := pr.Prove(b, l)
+			how := "offset argument " + l.String() + " >= 0 (precondition of the buffer helper)"
+			if !okp {
+				how = "cannot prove offset argument " + l.String() + " >= 0 (facts: " + describeFacts(pr, b) + ")"
+			}
+			ob("fillpre", ins, okp, how)
+		}
+	}
 	// K1: fill family offsets are non-negative
 	for _, cal := range callees {
 		if !isFillFamily(cal) {
